@@ -52,6 +52,10 @@ pub struct TypedModuleInfo {
     pub module: Arc<TyModule>,
     pub namespace_module: Arc<namespace::Module>,
     pub version: Option<u64>,
+    /// The diagnostics that type-checking this module (and its submodules) emitted. They are emitted
+    /// again whenever the cached module is reused, otherwise the errors and warnings of every module
+    /// that is served from the cache would silently disappear from the compilation result.
+    pub diagnostics: (Vec<CompileError>, Vec<CompileWarning>, Vec<CompileInfo>),
 }
 
 #[derive(Clone, Debug)]
